@@ -330,6 +330,20 @@ def _combo(args):
             fi = fam('go.inputs'); fi['obl'] += 1; fi['wit'] += 1
         if good_in: fi['ok'] += 1
         elif good_in is False: cand('go.inputs', 'inputs-order', f'inputs are not read in argv order with one index: {[e[:3] for e in evs if e[0] in ("read_file", "read_input", "stdin()")]}', {'n_files': n_files}, hav)
+        # ---- end of input reaches the chain: complete() exactly once after the last successful read
+        comps = [e for e in evs if e[0] == 'complete']
+        reads = [i for i, e in enumerate(evs) if e[0] in ('read_file', 'read_input')]
+        if reads and d.status == 'returned':
+            fcm = fam('go.complete'); fcm['obl'] += 1; fcm['wit'] += 1
+            ok_ret = ex.valid(d, retd == 0)[0]
+            # the summaries answer Err or Ok for every read / start / complete; a run that returns Ok must have completed
+            # the chain head once, after the last read
+            if ok_ret:
+                goodc = len(comps) == 1 and started and comps[0][1].oid == started[0][1].oid and evs.index(comps[0]) > reads[-1]
+            else:
+                goodc = len(comps) <= 1
+            if goodc: fcm['ok'] += 1
+            else: cand('go.complete', 'complete-not-called', f'a run that read its input successfully returns Ok without calling complete() once on the chain: {[e[0] for e in evs if e[0] in ("start", "read_input", "read_file", "complete")]}', {'combo': combo}, hav)
         # ---- C08.c capacity placement
         for i, c in enumerate(ch):
             if c[0] == 'SortProcess' and len(c) > 1:
@@ -367,6 +381,7 @@ def go_chain(ctx, want=('go.chain', 'go.capacity', 'go.validate_before_io'), fil
     descs = {'go.chain': 'the chain built by go(), read outside-in, is PreSet? Splitter? Filter? Selection1..n Uniquness? Sort_m..Sort_1 Limiter? Grouper|Merger? Output with each stage present iff its option is, and with the option\'s own parameters',
              'go.capacity': 'a sorter gets a capacity only when it feeds the limiter directly, and then exactly skip+take',
              'go.validate_before_io': 'every configuration validation precedes start(), the stdin factory and any read; a failed validation returns Err with nothing started',
+             'go.complete': 'when every read succeeded, complete() is called exactly once on the head of the chain after the last read (so buffered stages - sort, group, merge - flush), whatever was read',
              'go.inputs': 'without files stdin is opened once and read once; with files they are read in argv order, a prefix of them if one fails, all through the same index cell',
              'go.nopanic_observation': 'observation: skip+take overflow assert (outside S,T <= 6)'}
     cands = []
@@ -430,6 +445,13 @@ def replay_go(ctx, cands):
             c.status = 'reproduced' if found else 'unit'
         elif c.role == 'chain-differs':
             c.status, c.replay = replay_chain(ctx, c)
+        elif c.role == 'complete-not-called':
+            found = None
+            for argv, stdin in ((['--merge'], b''), (['--merge', '--take', '1'], b'1 2'), (['--group-by', '.k'], b''), (['--sort-by', '.'], b'2 1'), (['--merge', '--take', '0'], b'1'), (['--merge', '--only-objects-and-arrays'], b'1 2')):
+                r = run_jawk(ctx, argv + ['--style', 'consise'], stdin)
+                if not show(r['stdout']).strip():
+                    found = {'argv': argv, 'stdin': show(stdin), 'expected': 'one collection / the sorted rows', 'actual': show(r['stdout'])}; break
+            c.replay = found; c.status = 'reproduced' if found else 'unit'
         elif c.role.startswith('late-or-ignored-validation'):
             c.status = 'unit'
         else:
